@@ -44,27 +44,28 @@ type RunSpec struct {
 
 // Harness features added after the first regression tapes were recorded.
 const (
-	FeatNetWriteYield  = 1      // optional schedule point at the beginning of a transport write
-	FeatCutAtRegister  = 2      // C05 / C11 hub: reset placed at Hub.registerConnection
-	FeatEarlyResolve   = 4      // C17: services resolved while Start is still running
-	FeatCrash          = 8      // C05 / C11 hub: process crash and restart disturbances
-	FeatLateRun        = 16     // SHIP2 / hub rig: Run() of a connection delayed after its creation (reader already active)
-	FeatWithdrawInDial = 32     // C01 hub: the stored pairing is withdrawn while the hub's own dial is in flight
-	FeatAppInCallback  = 64     // C18: the application works (sleeps, approves the pairing) inside ServicePairingDetailUpdate
-	FeatDualStack      = 128    // hub rig: services announce an IPv6 and an IPv4 address, the .local host name may not resolve
-	FeatPartition      = 256    // C05: partition that heals (everything sent meanwhile arrives when it ends)
-	FeatHelloMatrix    = 512    // C08: hello member combinations delivered in the hello listen states, drawn uniformly
-	FeatRaceWs         = 1024   // C20: the websocket workloads of C12 / C13 under the race detector
-	FeatTransportStall = 2048   // C06 / C12 pair engines: the sending direction of one endpoint stalls for a while
-	FeatTimerTies      = 4096   // C14: re-arm / stop placed exactly at the expiry instant of the running timer
-	FeatMdnsRequests   = 8192   // C17: the hub asks for the known entries (RequestMdnsEntries) while resolver events come in
-	FeatLatePairing    = 16384  // C09 hub: a first connection is lost while the service is not yet trusted, pairing and a second connection follow
-	FeatRelayAdversary = 32768  // C02 outbound: the adversary relays the first connection to the genuine device, cuts it and answers the retry itself
-	FeatNetVariety     = 65536  // short reads (segments split), duplicated mDNS items, write-stall disturbances
-	FeatPairingTies    = 131072 // C10: the peer's approval reaches a hub at the instant its user unregisters / cancels
-	FeatQuickRetry     = 262144 // C18: the application calls the pairing API within 500 ms of a handshake state change
-	FeatEventOrder     = 524288 // events due at the same instant are ordered by queue, not by creation
-	FeatAll            = 1048575
+	FeatNetWriteYield  = 1       // optional schedule point at the beginning of a transport write
+	FeatCutAtRegister  = 2       // C05 / C11 hub: reset placed at Hub.registerConnection
+	FeatEarlyResolve   = 4       // C17: services resolved while Start is still running
+	FeatCrash          = 8       // C05 / C11 hub: process crash and restart disturbances
+	FeatLateRun        = 16      // SHIP2 / hub rig: Run() of a connection delayed after its creation (reader already active)
+	FeatWithdrawInDial = 32      // C01 hub: the stored pairing is withdrawn while the hub's own dial is in flight
+	FeatAppInCallback  = 64      // C18: the application works (sleeps, approves the pairing) inside ServicePairingDetailUpdate
+	FeatDualStack      = 128     // hub rig: services announce an IPv6 and an IPv4 address, the .local host name may not resolve
+	FeatPartition      = 256     // C05: partition that heals (everything sent meanwhile arrives when it ends)
+	FeatHelloMatrix    = 512     // C08: hello member combinations delivered in the hello listen states, drawn uniformly
+	FeatRaceWs         = 1024    // C20: the websocket workloads of C12 / C13 under the race detector
+	FeatTransportStall = 2048    // C06 / C12 pair engines: the sending direction of one endpoint stalls for a while
+	FeatTimerTies      = 4096    // C14: re-arm / stop placed exactly at the expiry instant of the running timer
+	FeatMdnsRequests   = 8192    // C17: the hub asks for the known entries (RequestMdnsEntries) while resolver events come in
+	FeatLatePairing    = 16384   // C09 hub: a first connection is lost while the service is not yet trusted, pairing and a second connection follow
+	FeatRelayAdversary = 32768   // C02 outbound: the adversary relays the first connection to the genuine device, cuts it and answers the retry itself
+	FeatNetVariety     = 65536   // short reads (segments split), duplicated mDNS items, write-stall disturbances
+	FeatPairingTies    = 131072  // C10: the peer's approval reaches a hub at the instant its user unregisters / cancels
+	FeatQuickRetry     = 262144  // C18: the application calls the pairing API within 500 ms of a handshake state change
+	FeatEventOrder     = 524288  // events due at the same instant are ordered by queue, not by creation
+	FeatMoreInputs     = 1048576 // C12: several closing events in a row; C06: large datagrams; C04: hello matrix; C10/C01 hub: user passes label spellings of SKIs
+	FeatAll            = 2097151
 )
 
 // SetFeatForRig forces the dual-stack options of the next hub rig (workloads
